@@ -49,6 +49,16 @@ ReadBack ==
   \A i \in 1..NShapes :
     LET r == LinesOfText(RenderLine(Shapes[i])) IN r.st = "ok" /\ ~r.amb /\ ~r.odd /\ r.lines = <<Shapes[i]>>
 ReadBackFile == LET ls == Lines(hist)  r == LinesOfText(RenderFile(ls)) IN r.st = "ok" /\ r.lines = ls
+\* ---- path resolution on the decoy tree: a relative $INCLUDE is looked up from the directory of the including file
+IPsOf(c, ls) == { [i \in 1..Len(o.recs) |-> o.recs[i].rdata[4]] : o \in Denotations(c, ls) }
+TreeResolution ==
+  hist = <<>> =>
+    /\ IPsOf(TreeCfg(1), <<TreeShapes[1]>>) = { <<21, 31, 41, 51, 61>> }      \* zones/db.example.org: inc/a.db -> zones/inc/{a,b,sub/d}.db, /abs/c.db -> abs/{c,e}.db
+    /\ IPsOf(TreeCfg(3), <<TreeShapes[1]>>) = { <<21, 31, 41, 51, 61>> }      \* /zones/db.example.org: the same
+    /\ IPsOf(TreeCfg(2), <<TreeShapes[1]>>) = { <<22, 32>> }                  \* db.example.org in the root: inc/a.db, inc/b.db
+    /\ IPsOf(TreeCfg(1), <<TreeShapes[2], TreeShapes[6]>>) = { <<71, 33>> }   \* top.db, b.db next to the zone file
+    /\ IPsOf(TreeCfg(4), <<TreeShapes[2]>>) = { <<73>> }
+    /\ \A o \in Denotations(TreeCfg(1), <<TreeShapes[7]>>) : o.undef          \* "../b.db": not decided
 \* ---- safety side
 Bounded == /\ depth = 0
            /\ Len(opens) <= MaxLines * (MaxDepth + 1)
